@@ -391,7 +391,54 @@ def fresnelForward (S : Scalar C) (p : Params) (x : Nat → Nat → C) : Nat →
 def fresnelBackward (S : Scalar C) (p : Params) (x : Nat → Nat → C) : Nat → Nat → C :=
   fourierFilterBackward S p (fresnelTF S p) x
 
+/-! #### the impulse-response branch of `FresnelPropagator.make_instance`, and the regime switch
+
+`transfer_function = FastFourierTransform(enlarged_grid).forward(evaluate_supersampled(impulse_response, enlarged_grid, s))`:
+the impulse response `exp(ikz)/(iλz)·exp(ik r²/2z)` has the *rational* amplitude `fresnelIrAmp` and the rational phase
+`fresnelIrTurns` (turns), so its sub-pixel mean is `fresnelIrAmp · meanTurns`, and the centred discrete transform
+`δx δy Σ_j h_j exp(-2πi (i-⌊M/2⌋)(j-⌊M/2⌋)/M)` of `FastFourierTransform.forward` is a finite sum of such terms: the whole
+transfer function of this branch is a formal phase sum as well. -/
+
+/-- phases (turns mod 1) of the `sx·sy` sub-samples of the impulse response at pixel `(jx,jy)` of the enlarged grid -/
+def fresnelIrSubTurns (p : Params) (jx jy : Nat) : List Rat :=
+  (dithers p.sy).flatMap fun dy => (dithers p.sx).map fun dx =>
+    frac (fresnelIrTurns p (xCoord p.dx (mx p) jx dx) (xCoord p.dy (my p) jy dy))
+
+/-- offset of index `i` from the centre `⌊M/2⌋` of an axis of length `M` -/
+def centred (M i : Nat) : Int := (i : Int) - ((M / 2 : Nat) : Int)
+
+/-- The transfer function of the impulse-response branch at the *centred* internal pixel `(iy,ix)`:
+`δx δy /(λ z) · Σ_{jy,jx} mean_sub exp(2πi·fresnelIrTurns) · exp(-2πi (iy-cy)(jy-cy)/My) · exp(-2πi (ix-cx)(jx-cx)/Mx)`. -/
+def fresnelIrTFc (S : Scalar C) (p : Params) (iy ix : Nat) : C :=
+  S.ofRat (p.dx * p.dy * fresnelIrAmp p) *
+    Fft.sumRange (my p) fun jy => Fft.sumRange (mx p) fun jx =>
+      meanTurns S (fresnelIrSubTurns p jx jy) *
+        (S.kerF (my p) (centred (my p) jy * centred (my p) iy) * S.kerF (mx p) (centred (mx p) jx * centred (mx p) ix))
+
+/-- … as it multiplies FFT bin `(qy,qx)` (`ifftshift` applied by `FourierFilter`). -/
+def fresnelIrTF (S : Scalar C) (p : Params) (qy qx : Nat) : C :=
+  fresnelIrTFc S p (ifftshiftIdx (my p) qy) (ifftshiftIdx (mx p) qx)
+
+/-- The transfer function `FresnelPropagator.make_instance` hands to `FourierFilter`, **with the regime switch**
+`np.any(input_grid.delta < wavelength * abs(distance) / L_max)` (`impulseBranch`; the *vacuum* wavelength — the refractive
+index does not enter the decision). -/
+def fresnelTFSwitched (S : Scalar C) (p : Params) (qy qx : Nat) : C :=
+  if impulseBranch p then fresnelIrTF S p qy qx else fresnelTF S p qy qx
+
+/-- `FresnelPropagator.forward` on a scalar field, either branch of `make_instance`. -/
+def fresnelPropagatorForward (S : Scalar C) (p : Params) (x : Nat → Nat → C) : Nat → Nat → C :=
+  if impulseBranch p then fourierFilter S p (fresnelIrTF S p) x else fresnelForward S p x
+
+/-- `FresnelPropagator.backward`, either branch. -/
+def fresnelPropagatorBackward (S : Scalar C) (p : Params) (x : Nat → Nat → C) : Nat → Nat → C :=
+  if impulseBranch p then fourierFilterBackward S p (fresnelIrTF S p) x else fresnelBackward S p x
+
 end scalarPipeline
+
+/-- The regime switch as it would be with the wavelength *inside the medium* `λ/n` (the variant argued for by the seeded
+patch C04-11).  Not what the code does; kept to state the difference (`Alt.*` theorems). -/
+def impulseBranchMedium (p : Params) : Bool :=
+  p.dx < (p.lam / p.n) * ratAbs p.z / lmax p || p.dy < (p.lam / p.n) * ratAbs p.z / lmax p
 
 /-- the executable instance: formal phase sums -/
 def psumScalar : Scalar Fft.PSum := ⟨Fft.PSum.ofRat, Fft.PSum.turns, psumConj⟩
@@ -410,12 +457,16 @@ def filtOpP (p : Params) (back : Bool) (D x : List GRat) : List Fft.PSum :=
 On the transfer-function branch the Fresnel transfer function at an internal pixel is the mean of `exp(2πi t)` over the
 rational phases `fresnelSubTurns` — a formal phase sum.  So the whole `FresnelPropagator.forward` is computed exactly. -/
 
-/-- What the driver op `prop` computes: `FresnelPropagator(...).forward(x)` / `.backward(x)` (transfer-function branch) on
+/-- What the driver op `prop` computes: `FresnelPropagator(...).forward(x)` / `.backward(x)` (either branch of the regime switch) on
 formal phase sums; `x` row-major `ny·nx` Gaussian rationals. -/
 def propOpP (p : Params) (back : Bool) (x : List GRat) : List Fft.PSum :=
   let xs := fun a b => psumOfGRat (gratArr p.nx x a b)
-  let r := if back then fresnelBackward psumScalar p xs else fresnelForward psumScalar p xs
+  let r := if back then fresnelPropagatorBackward psumScalar p xs else fresnelPropagatorForward psumScalar p xs
   (List.range p.ny).flatMap fun iy => (List.range p.nx).map fun ix => r iy ix
+
+/-- What the driver op `irtf` computes: the transfer function of the set-up Fresnel propagator at FFT bin `(qy,qx)`
+as `FourierFilter` multiplies with it, whichever branch `make_instance` takes. -/
+def tfOpP (p : Params) (qy qx : Nat) : Fft.PSum := fresnelTFSwitched psumScalar p qy qx
 
 /-! ### the pipeline with a matrix-valued transfer function (`field_dot(tf, ·)` between the transforms) -/
 
